@@ -35,7 +35,7 @@ func init() {
 			"the statement's 'every byte string' is sampled, not enumerated",
 		},
 		Shards:     shards(8, 16),
-		Timeout:    timeouts(5*time.Minute, 30*time.Minute),
+		Timeout:    timeouts(12*time.Minute, 90*time.Minute),
 		MinEvals:   5000,
 		MemLimitMB: 3072,
 		Required:   []string{"outcome:error", "outcome:success-stable", "class:valid", "class:lenfield", "class:truncate", "class:extend", "class:typebyte", "class:overwrite", "class:random", "class:longstring", "class:dirsize-sweep", "decodedir_calls", "alloc_measurements"},
